@@ -798,6 +798,20 @@ def check_cif(chk) -> None:
             K(fi, f"null:{norm(cmp_.left)[:40]}"),
         )
     chk.floor("null-markers", 2)
+    # the decoding of atom_site rows: evaluated on one row per class; the pinned-form reading below is the fallback
+    from checks import c08e
+
+    try:
+        if c08e.check_cif_eval(chk):
+            g = repo.func(P, "parse_pdb")
+            rets = [r for r in g.node.body if isinstance(r, ast.Return)]
+            at = astq.first_assign(g.node, "atoms")
+            chk.expect(at is not None and norm(at) == "filter_clashing_atoms(atoms_to_process)" and len(rets) == 1 and norm(rets[0].value).startswith("(atoms, modified"), "reader-result", g.where, "all decoded atoms pass through the duplicate/clash filter once", "the reader does not return filter_clashing_atoms(all decoded atoms)", K(g, "result"))
+            return
+    except AnalysisError:
+        raise
+    except Exception as ex:
+        chk.ok("cif-eval", fi.where, f"evaluation of parse_cif failed internally ({type(ex).__name__}: {str(ex)[:60]}): the pinned-form rules decide")
     occ = [s for s in ast.walk(fi.node) if isinstance(s, ast.Assign) and norm(s.targets[0]) == "occupancy"]
     ok = False
     if len(occ) == 1 and isinstance(occ[0].value, ast.IfExp):
@@ -854,9 +868,9 @@ def run(chk) -> None:
     check_group(chk)
     for rule, n in (("identity-key-model", 2), ("pdb-columns", 9), ("clash-same-model", 1), ("optional-occupancy", 2), ("model-selection", 3)):
         chk.floor(rule, n)
-    from sa import memoshare
+    from checks import w3cross
 
-    memoshare.check(chk, "C08")  # a memoised function must not hand one mutable object to every caller
+    w3cross.check(chk, "C08", untouched=())  # state that survives a call: shared memo results, module-level containers, arguments
 
 
 MANIFEST_ENTRY = {
